@@ -232,6 +232,19 @@ ASYNC_LEAF_KANI = [
     K("p_io_error_mapping", "io::ErrorKind -> IoReadError/IoWriteError mapping", [P + "bytes.rs::r#async::{From<io::Error> for IoReadError, From<io::Error> for IoWriteError}"]),
 ]
 
+ASYNC_WRITE_KANI = [
+    K("p_stream_header_write_async_exact", "ASYNC StreamHeader::write_async on an always-ready destination: exactly varint(kind) || varint(session id) for all kinds / session ids, nothing else (chunking / Pending: leaf-future poll contracts)",
+      [P + "stream_header.rs::StreamHeader::write_async"]),
+    K("p_frame_write_async_exact", "ASYNC Frame::write_async on an always-ready destination: exactly the RFC bytes write_size announces, for all kinds / ids / session ids",
+      [P + "frame.rs::Frame::write_async"], kind="bounded", bound="payload length <= 4 (header part complete)"),
+    K("p_wt_upgrade_async_bi_exact_preamble", "ASYNC bilocal upgrade_async: writes exactly varint(0x41) varint(session id), keeps the id, all session ids",
+      [P + "stream.rs::bilocal::StreamBiLocalH3::upgrade_async"]),
+    K("p_wt_upgrade_async_uni_exact_preamble", "ASYNC unilocal upgrade_async: writes exactly varint(0x54) varint(session id), keeps the id, all session ids",
+      [P + "stream.rs::unilocal::StreamUniLocalQuic::upgrade_async"]),
+]
+QPACK_LOOKUP_QUICK = K("p_qpack_lookup_index_exact_value", "lookup_index answers KeyValue (indexed field line) only for an EXACT value match: values differing by letter case are name references",
+                       [P + "qpack.rs::StaticTable::lookup_index"], kind="bounded", bound="3 listed (name, value) pairs")
+
 MISC_KANI = [
     K("c_error_code_to_code", "in-place contract: 15 error codes == IANA / draft registry values", [P + "error.rs::ErrorCode::to_code"]),
     K("p_alpn_is_h3", "ALPN token is h3", [P + "lib.rs::WEBTRANSPORT_ALPN"]),
@@ -264,7 +277,7 @@ PROPS = {
         "level": "proof",
         "claim": "Preamble codec only, both directions and both styles: the WebTransport stream preamble (0x54 / 0x41 varint + session id varint) is written exactly (StreamHeader/Frame encoders and the local upgrades, sync and async, Verus unit frame_write + Kani) and stripped exactly (one-shot, buffered at every cut point, async as sequential composition of the leaf futures whose one-step inductive poll contracts cover every chunking / Pending pattern): decoders consume precisely the preamble and never a following application byte.",
         "note": "Not decided: that quinn delivers stream bytes in order, the driver's tasks, concurrency between streams, flow control. Assumed: async fn desugaring composes awaits sequentially (rewrite R9); BytesReader/Writer and AsyncReader/Writer interfaces are assumed in Verus and discharged for the real impls / leaf futures by the named Kani harnesses.",
-        "kani": STREAM_HEADER_KANI + [STREAM_KANI_QUICK[4], STREAM_KANI_QUICK[5], FRAME_READ_20, STREAM_KANI_BUFFERED[0]] + ASYNC_LEAF_KANI,
+        "kani": STREAM_HEADER_KANI + [STREAM_KANI_QUICK[4], STREAM_KANI_QUICK[5], FRAME_READ_20, STREAM_KANI_BUFFERED[0]] + ASYNC_LEAF_KANI + ASYNC_WRITE_KANI,
         "verus": [V("frame", pair=("proto", "p_frame_read_matches_reference_20")), V("frame_async"), V("stream_header", pair=("proto", "p_stream_header_read_matches_reference")), V("frame_write", pair=("proto", "p_frame_write_roundtrip_8"))],
         "not_decided": ["in-order delivery (quinn)", "worker tasks / concurrency", "async composites beyond their leaf futures"],
     },
@@ -314,7 +327,7 @@ PROPS = {
         "note": "Assumed: httlib-huffman, String::from_utf8, HashMap, Vec, Cow, Bytes operations (each listed as an assumed helper contract in the Verus units); decode_string is taken as a deterministic function of its input by Decoder::decode.",
         "kani": [VARINT_KANI[2], VARINT_KANI[6], VARINT_KANI[7], VARINT_KANI[8], VARINT_KANI[9], FRAME_READ_20, FRAME_READ_4200, FRAME_KIND_KANI[1],
                  STREAM_HEADER_KANI[0], STREAM_KIND_KANI[1], DATAGRAM_KANI[4], CAPSULE_KANI[0], CAPSULE_KANI[1], CAPSULE_KANI[2], CAPSULE_KANI[3]]
-                + QPACK_INT_DEC + QPACK_MISC + [IDS_KANI[4], IDS_KANI[7], SETTING_ID_KANI[2]],
+                + QPACK_INT_DEC + QPACK_MISC + [IDS_KANI[4], IDS_KANI[7], SETTING_ID_KANI[2]] + [ASYNC_LEAF_KANI[1], ASYNC_LEAF_KANI[2]],
         "verus": [V("frame", pair=("proto", "p_frame_read_matches_reference_20")), V("qpack_decode", pair=("proto", "p_qpack_decode_integer_n7")), V("settings", pair=("proto", "c_settingid_parse")), V("stream_header", pair=("proto", "p_stream_header_read_matches_reference")), V("frame_async"), V("capsule", pair=("proto", "p_capsule_with_frame"))],
         "not_decided": ["Decoder::decode loop / decode_string / Settings::with_frame under Kani (containers)"],
     },
@@ -322,7 +335,7 @@ PROPS = {
         "level": "proof",
         "claim": "Sans-IO typestate layer: on each of the four stream roles, from an arbitrary first-frame state, the accept/reject verdict and the error code for every frame kind equal the RFC 9114 7.2 / WebTransport-draft rule table - for inputs of ANY length with any number of skipped unknown frames, sync and async (Verus units frame, frame_async) and on bounded symbolic inputs on the real crate (Kani); invalid session ids -> H3_ID_ERROR, oversize -> H3_EXCESSIVE_LOAD, truncation at FIN -> H3_FRAME_ERROR, clean FIN at a frame boundary passed through, unknown uni stream type -> H3_STREAM_CREATION_ERROR; SETTINGS: reserved/duplicate -> H3_SETTINGS_ERROR, truncated -> H3_FRAME_ERROR; the 15 error codes and the setting ids equal their registry values.",
         "note": "Quick tier: well-formed single frames (bounded). Thorough tier: every byte string <= 14 bytes. Not decided: the driver's reaction (RemoteSettingsStream::run, handle_uni_h3_stream, missing/duplicate SETTINGS, closed critical streams) - async over quinn.",
-        "kani": STREAM_KANI_QUICK[:5] + STREAM_KANI_BUFFERED + STREAM_KANI_THOROUGH + MISC_KANI[:1] + SETTING_ID_KANI[1:3],
+        "kani": STREAM_KANI_QUICK[:5] + STREAM_KANI_BUFFERED + STREAM_KANI_THOROUGH + MISC_KANI[:1] + SETTING_ID_KANI[1:3] + ASYNC_LEAF_KANI[:3],
         "verus": [V("frame", pair=("proto", "p_frame_read_matches_reference_20")), V("settings", pair=("proto", "c_settingid_parse")), V("frame_async"), V("stream_header", pair=("proto", "p_uniremote_upgrade")), V("driver"), V("driver_streams")],
         "not_decided": ["driver-level rules: missing/repeated SETTINGS, duplicated/closed critical streams, what is put on the wire"],
     },
@@ -331,7 +344,7 @@ PROPS = {
         "claim": "Frames, settings and capsules at the sans-IO layer: a frame of unknown type is consumed whole (type, length, payload) before it is reported, on EVERY byte string (Kani, complete) and for any length (Verus), so the skip loops - proved for ANY number of unknown frames, sync and async - never re-read its content, and a clean end of stream after skipped frames stays a clean end; GREASE predicates equal 0x1f*N+0x21 for all 2^62 ids and GREASE frames are returned whole; unknown setting ids are ignored without changing the collected settings (reference interpreter); unknown capsule types yield no capsule.",
         "note": "Skip loop: Kani shows base case + one step per typestate (thorough tier, bounded); quick tier exercises one leading unknown frame on well-formed input. Unknown frames above the 4096-byte parse limit are refused like known ones (H3_EXCESSIVE_LOAD). Not decided: driver reactions to unknown unidirectional stream types (async).",
         "kani": FRAME_KIND_KANI + [FRAME_READ_20, FRAME_READ_4200] + STREAM_KANI_QUICK[:4] + STREAM_KANI_THOROUGH[:4]
-                + [STREAM_KIND_KANI[0], SETTING_ID_KANI[0], SETTING_ID_KANI[2], CAPSULE_KANI[0], CAPSULE_KANI[1]],
+                + [STREAM_KIND_KANI[0], SETTING_ID_KANI[0], SETTING_ID_KANI[2], CAPSULE_KANI[0], CAPSULE_KANI[1]] + ASYNC_LEAF_KANI[:3],
         "verus": [V("frame", pair=("proto", "p_frame_read_matches_reference_20")), V("settings", pair=("proto", "c_settingid_parse")), V("frame_async"), V("capsule", pair=("proto", "p_capsule_with_frame")), V("driver_streams")],
         "not_decided": ["unknown unidirectional stream types in the worker", "ConnectStream capsule loop"],
     },
@@ -340,7 +353,7 @@ PROPS = {
         "claim": "Exact inverses with exact sizes for varints (all v < 2^62, all four reader/writer impls, shortest form, untouched-on-error), stream headers (complete), frame headers (complete) with payloads up to the stated bound, datagrams, and QPACK prefix integers (all usize values, all widths); the QPACK static table is RFC 9204 Appendix A.",
         "note": "Frame/datagram payload length is bounded on Kani (8/70, 16/256); frame encoders for ANY payload length are Verus unit frame_write. Field sections as wholes: Decoder::decode == reference interpreter (unit qpack_decode), Encoder::encode == one RFC 9204 line per field (unit qpack_encode), and decode(encode(h)) == h's fields (lemma unit qpack_roundtrip) - modulo the listed axioms on the primitives (string literal/Huffman codec and HashMap are ASSUMED); Headers::generate_frame's HashMap iteration order and Settings::generate_frame are not under contract.",
         "kani": VARINT_KANI + FRAME_WRITE_KANI + [FRAME_READ_20, STREAM_HEADER_KANI[1], DATAGRAM_KANI[0], DATAGRAM_KANI[1], DATAGRAM_KANI[2], DATAGRAM_KANI[3]]
-                + QPACK_INT_ENC + [QPACK_MISC[1], QPACK_LOOKUP, VEC_PUT_BYTES],
+                + QPACK_INT_ENC + [QPACK_MISC[1], QPACK_LOOKUP, VEC_PUT_BYTES] + ASYNC_LEAF_KANI + ASYNC_WRITE_KANI[:2] + [QPACK_LOOKUP_QUICK],
         "verus": [V("ids", pair=("proto", "c_varint_size")), V("qpack_encode"), V("frame_write", pair=("proto", "p_frame_write_roundtrip_8")), V("qpack_decode", pair=("proto", "p_qpack_decode_integer_n7")), V("qpack_roundtrip")],
         "not_decided": ["Headers::generate_frame <-> with_frame and Settings::generate_frame <-> with_frame as wholes"],
     },
@@ -357,7 +370,7 @@ PROPS = {
         "claim": "Absolute wire format of the encoders against an independent RFC transcription (never the crate's decoder): frame / stream / setting / capsule / error-code registry values, ALPN h3, the QPACK static table == RFC 9204 Appendix A, frame and stream-header encoders and the WT preambles == RFC bytes for any payload length, datagram prefix, QPACK prefix integers == RFC 7541 5.1, Encoder::encode == 00 00 + exactly one RFC 9204 4.5 static/literal line per field, and the endpoint's local SETTINGS advertise WebTransport, H3 datagrams and extended CONNECT with a zero-capacity QPACK table.",
         "note": "The content of the local SETTINGS (WebTransport, H3 datagrams, extended CONNECT, zero-capacity QPACK table) and Encoder::encode's line-per-field grammar are Verus units. Not under contract (HashMap iteration / sort closure / driver): the order in which Settings::generate_frame emits the pairs, sorted_headers ordering (pseudo-headers first), 'exactly one control stream, SETTINGS first' (worker).",
         "kani": [FRAME_KIND_KANI[3], STREAM_KIND_KANI[3], SETTING_ID_KANI[3]] + MISC_KANI + [QPACK_MISC[1]] + QPACK_INT_ENC[:2]
-                + [STREAM_KANI_QUICK[5], STREAM_HEADER_KANI[1], FRAME_WRITE_KANI[0], DATAGRAM_KANI[2], CAPSULE_KANI[0]],
+                + [STREAM_KANI_QUICK[5], STREAM_HEADER_KANI[1], FRAME_WRITE_KANI[0], DATAGRAM_KANI[2], CAPSULE_KANI[0]] + ASYNC_LEAF_KANI[3:5] + ASYNC_WRITE_KANI + [QPACK_LOOKUP_QUICK],
         "verus": [V("qpack_encode"), V("frame_write", pair=("proto", "p_frame_write_roundtrip_8")), V("settings")],
         "not_decided": ["LocalSettingsStream content", "pseudo-header ordering", "Encoder::encode as a whole", "worker emission order"],
     },
